@@ -76,8 +76,64 @@ ModelAsArray(S, p) ==
 
 IsInt(idx) == idx[1] = "int"
 
+(* ---------------------------------------------------------------- index forms *)
+(* An index object is <<kind, payload, form>> (PyIndex.Resolve and every operator below read the
+   first two components only): the FORM says in which of the shapes numpy accepts the index is
+   handed over -
+     int   : a Python int ("py"), a numpy integer scalar of some width and signedness
+             ("i8" .. "u64"), or a zero-dimensional integer ndarray ("a0")
+     arr   : a Python list of ints ("list") or an integer ndarray of some dtype ("i8" .. "u64")
+     mask  : a bool ndarray ("np") or a Python list of bools ("list")
+     slice : bounds and step given as Python ints ("py") or as numpy integers ("np")
+     all / ell : ':' and Ellipsis have one form ("py")
+   The integer positions of deletion and assignment (del x[i], x[i] = v, get_array(i)) carry a
+   form as well (a trailing component of the call's argument); those are documented as "int", so
+   only the scalar forms are in their domain.
+   The meaning of a call NEVER depends on the form: `x[np.int64(1), mask]` is `x[1, mask]`.  That is
+   exactly the statement checked - the call universes (AtomContainer.tla) and the recorded
+   histories enumerate the forms, every expected value is computed from kind and payload.     *)
+IntForms       == {"py", "i8", "i16", "i32", "i64", "u8", "u16", "u32", "u64", "a0"}
+ScalarIntForms == IntForms \ {"a0"}
+ArrForms       == {"list", "i8", "i16", "i32", "i64", "u8", "u16", "u32", "u64"}
+MaskForms      == {"np", "list"}
+SliceForms     == {"py", "np"}
+FormsOf(kind) == CASE kind = "int" -> IntForms [] kind = "arr" -> ArrForms
+                   [] kind = "mask" -> MaskForms [] kind = "slice" -> SliceForms
+                   [] OTHER -> {"py"}
+DefaultForm(kind) == CASE kind = "arr" -> "i64" [] kind = "mask" -> "np" [] OTHER -> "py"
+\* a value must be representable in the form's integer type
+FitsForm(v, f) ==
+  CASE f = "i8"  -> -128 <= v /\ v <= 127
+    [] f = "u8"  -> 0 <= v /\ v <= 255
+    [] f = "i16" -> -32768 <= v /\ v <= 32767
+    [] f = "u16" -> 0 <= v /\ v <= 65535
+    [] f \in {"u32", "u64"} -> v >= 0
+    [] OTHER -> TRUE
+Dom_Form(idx) ==
+  /\ Len(idx) = 3 /\ idx[3] \in FormsOf(idx[1])
+  /\ (idx[1] \in {"int", "arr"} => \A i \in DOMAIN idx[2] : FitsForm(idx[2][i], idx[3]))
+Dom_IntForm(i, f) == f \in ScalarIntForms /\ FitsForm(i, f)
+\* the forms of a call are admissible (the rest of the property's domain is stated where the
+\* calls are generated)
+Dom_Call(op, arg) ==
+  CASE op = "index" -> \A k \in 2..Len(arg) : Dom_Form(arg[k])
+    [] op \in {"del_atom", "del_model"} -> Dom_IntForm(arg[1], arg[2])
+    [] op \in {"set_atom", "take_then_overwrite"} -> Dom_IntForm(arg[1], arg[5])
+    [] op = "swap_atoms" -> Dom_IntForm(arg[1], arg[3]) /\ Dom_IntForm(arg[2], arg[4])
+    [] op = "set_model" -> Dom_IntForm(arg[1], arg[4]) /\ Dom_IntForm(arg[2], arg[5])
+    [] OTHER -> TRUE
+\* The quantifier of the property is "all index values numpy accepts for one axis": an integer
+\* outside -n..n-1 is not one.  The model still says "Rejected" for it wherever the classes refuse it
+\* as numpy does (every position but one); in the atom position of a two-dimensional STACK index
+\* whose model position is not an integer the classes turn the integer into a slice, so an
+\* out-of-range value selects no atom instead of being refused - outside the quantifier, not generated
+Dom_Index(S, arg) ==
+  (S.kind = "stack" /\ arg[1] = "2d" /\ arg[3][1] = "int" /\ arg[2][1] # "int") => InRange(arg[3][2][1], N(S))
+WithForm(x, f) == <<x[1], x[2], f>>
+Dflt(X) == {WithForm(x, DefaultForm(x[1])) : x \in X}
+
 (* ---------------------------------------------------------------- indexing *)
-\* arg = <<"1d", idx>> or <<"2d", idx0, idx1>>
+\* arg = <<"1d", idx>> or <<"2d", idx0, idx1>>, every idx = <<kind, payload, form>>
 RECURSIVE IndexArray(_, _)
 IndexArray(S, arg) ==
   IF arg[1] = "2d"
@@ -150,33 +206,34 @@ Apply(S, op, arg) ==
                                   S.z[k][((i - 1) % N(S)) + 1] + 200000 * ((i - 1) \div N(S))]],
                       !.bonds = IF Has(S.bonds) THEN <<RepBonds(Get(S.bonds), N(S), arg[1])>> ELSE NoneV],
             <<>>)
-    [] op = "del_atom" ->       \* del array[i]  (stacks have no public atom deletion)
+    [] op = "del_atom" ->       \* del array[i]; arg = <<i, form>>  (stacks have no public atom deletion)
          IF S.kind # "array" \/ ~InRange(arg[1], N(S)) THEN Rej(S)
          ELSE LET p == WrapOne(arg[1], N(S))
                   keep == [k \in 1..(N(S) - 1) |-> IF k <= p THEN k - 1 ELSE k]
               IN Ok(SelectAtoms(S, keep), <<>>)
-    [] op = "del_model" ->
+    [] op = "del_model" ->      \* del stack[i]; arg = <<i, form>>
          IF S.kind # "stack" \/ ~InRange(arg[1], D(S)) THEN Rej(S)
          ELSE LET p == WrapOne(arg[1], D(S))
                   keep == [k \in 1..(D(S) - 1) |-> IF k <= p THEN k - 1 ELSE k]
               IN Ok(SelectModels(S, keep), <<>>)
-    [] op = "set_atom" ->       \* array[i] = Atom;  arg = <<i, uid, tag, cell>>, the atom carries exactly S.ex
+    [] op = "set_atom" ->       \* array[i] = Atom;  arg = <<i, uid, tag, cell, form>>, the atom carries exactly S.ex
          IF S.kind # "array" \/ ~InRange(arg[1], N(S)) THEN Rej(S)
          ELSE LET p == WrapOne(arg[1], N(S)) + 1 IN
               Ok([S EXCEPT !.a[p] = <<arg[2], arg[3]>>,
                            !.z = [k \in 1..D(S) |-> [S.z[k] EXCEPT ![p] = arg[4]]]], <<>>)
-    [] op = "swap_atoms" ->     \* tmp = array[i]; array[i] = array[j]; array[j] = tmp   (list-of-atoms semantics:
+    [] op = "swap_atoms" ->     \* arg = <<i, j, form of i, form of j>>
+                                \* tmp = array[i]; array[i] = array[j]; array[j] = tmp   (list-of-atoms semantics:
                                 \* an atom taken out of the array is a value of its own)
          IF S.kind # "array" \/ ~InRange(arg[1], N(S)) \/ ~InRange(arg[2], N(S)) THEN Rej(S)
          ELSE LET p == WrapOne(arg[1], N(S)) + 1  q == WrapOne(arg[2], N(S)) + 1 IN
               Ok([S EXCEPT !.a = [S.a EXCEPT ![p] = S.a[q], ![q] = S.a[p]],
                            !.z = <<[S.z[1] EXCEPT ![p] = S.z[1][q], ![q] = S.z[1][p]]>>], <<>>)
-    [] op = "take_then_overwrite" ->   \* tmp = array[i]; array[i] = Atom(arg[2..4]); the value read from tmp afterwards
+    [] op = "take_then_overwrite" ->   \* tmp = array[i]; array[i] = Atom(arg[2..4]); the value read from tmp afterwards; arg[5] = form of i
          IF S.kind # "array" \/ ~InRange(arg[1], N(S)) THEN Rej(S)
          ELSE LET p == WrapOne(arg[1], N(S)) + 1 IN
               Ok([S EXCEPT !.a[p] = <<arg[2], arg[3]>>,
                            !.z = <<[S.z[1] EXCEPT ![p] = arg[4]]>>], AtomOut(S, 1, p - 1))
-    [] op = "set_model" ->      \* stack[i] = get_array(j) with every cell shifted by arg[3]
+    [] op = "set_model" ->      \* stack[i] = get_array(j) with every cell shifted by arg[3]; arg[4], arg[5] = forms of i, j
          IF S.kind # "stack" \/ ~InRange(arg[1], D(S)) \/ ~InRange(arg[2], D(S)) THEN Rej(S)
          ELSE LET i == WrapOne(arg[1], D(S)) + 1  j == WrapOne(arg[2], D(S)) + 1 IN
               Ok([S EXCEPT !.z[i] = [k \in 1..N(S) |-> S.z[j][k] + arg[3]],
